@@ -138,7 +138,7 @@ func (g *Gen) leaf(keyPath int) *Node {
 	case 1:
 		return &Node{K: "int", I: g.r.Intn(100)}
 	}
-	return &Node{K: "str", S: g.r.Pick([]string{"a", "b c", "", "x\ny", "`q`"})}
+	return &Node{K: "str", S: g.r.Pick([]string{"a", "b c", "", "x\ny", "`q`", "http://e.x/p", "// not a comment", "a:b,c", "}{"})}
 }
 
 func (g *Gen) typ(depth, keyPath int) *Node {
